@@ -19,7 +19,7 @@ FILES = [
     "qucumber/rbm/purification_rbm.py",
     "qucumber/utils/unitaries.py",
 ]
-REQUIRED_THEOREMS = ["C11_roundtrip", "C11_reserved", "C11_no_side_effect", "C11_idempotent", "C11_history"]
+REQUIRED_THEOREMS = ["C11_roundtrip", "C11_roundtrip_autoload", "C11_reserved", "C11_no_side_effect", "C11_idempotent", "C11_history"]
 EXTRA_TRUSTED = [
     "torch.save / torch.load are a faithful map from the saved dict to the loaded dict (a file is a map of tokens in the model)",
     "tensor contents are identified by the hash of their bytes (tokens); storage identity by data_ptr() with all observed tensors kept alive",
@@ -38,7 +38,10 @@ RULE = ("case = random history (<= 12 ops quick / <= 40 thorough) over up to 3 s
         "model. ARGUMENT FORMS (seed `af` of every op with options): num_visible / num_hidden / num_aux, epochs / pos_batch_size / k of fit and the "
         "ModelSaver period (a divisor of the epoch) as Python int / numpy.int64 / int32 / intp / uint8 / 0-d numpy array / 0-d torch tensor; gpu, "
         "save_initial, metadata_only as bool / int / numpy.bool_ / numpy comparison result / 0-d numpy array / 0-d torch tensor; ModelSaver and "
-        "autoload by keyword or positionally. non-trivial iff some load/autoload succeeds from a file written after a randomisation/training of its source; "
+        "autoload by keyword or positionally. LOCATION FORMS: one history in four (and every hand-written history a second time) writes every path "
+        "RELATIVE to the caller's working directory, and changes the working directory between creating a ModelSaver and the epochs it saves at "
+        "(the files stay <folder_path as given at construction>/<file_name>); the hand-written histories and 12 generated ones run again under "
+        "each process-global environment (default dtype float64, no_grad, another cwd). non-trivial iff some load/autoload succeeds from a file written after a randomisation/training of its source; "
         "distinct by hash of the plan")
 
 MD_KINDS = {
@@ -166,7 +169,10 @@ def gen_plan(rng, maxlen):
             plan.append(op)
             if not op["metadataOnly"]:
                 saved[path] = states[slot]
-            for _ in range(rng.choice([0, 1, 2])):  # ModelSaver: the same metadata object every period
+            for _ in range(rng.choice([0, 1, 2])):  # ModelSaver: the same saver and metadata object every period ...
+                if rng.random() < 0.5:              # ... with the state trained / changed between the periods, as in a real fit
+                    plan.append({"t": "write", "slot": slot, "net": rng.choice(so.NETS[kind])} if rng.random() < 0.5 else
+                                {"t": "train", "slot": slot, "bases": True, "opt": rng.choice(["sgd", "adam"]), "epochs": 1})
                 plan.append(dict(op))
         elif r < 0.87:
             # load: prefer a file written by a state of the same architecture
@@ -202,6 +208,7 @@ class Hooks:
         self.prev = None
         self.dirty = {}  # slot -> source modified (write/train) since construction
         self.nontrivial = False
+        self.cut = False   # set when the implementation's outcome is unconstrained by the property and the model cannot follow it: the history ends
         self.cross_kind = set()  # id(op) of autoloads as ANOTHER state type than the one that wrote the file
 
     def canon_err(self, op, e_impl, e_model):
@@ -221,7 +228,7 @@ class Hooks:
         return "model of the operation (by construction)"
 
     def cs(self, op):
-        return {"plan": self.case["plan"], "tseed": self.case["tseed"], "op": op}
+        return {"plan": self.case["plan"], "tseed": self.case["tseed"], "op": op, **({"rel": True} if self.case.get("rel") else {})}
 
     def before(self, real, op):
         t = op["t"]
@@ -268,12 +275,19 @@ class Hooks:
             if t == "saverSave" and op["src"] == "callable":
                 keys = [k for k, _ in op["items"]]
             monly = t == "saverSave" and op["metadataOnly"]
-            has_ud = "unitary_dict" in st.__dict__
+            has_ud = hasattr(st, "unitary_dict")
             reserved = (not monly) and (any(k in st.networks for k in keys) or (has_ud and "unitary_dict" in keys))
             nonstr = (not monly) and any(not isinstance(k, str) for k in keys)
-            expect = "ValueError" if reserved else ("TypeError" if nonstr else None)
-            ctx.oracle("save refuses exactly the reserved names", err == expect, cs, detail={"err": err, "expected": expect, "keys": [str(k) for k in keys]},
-                       sig="save/reserved", theorem="C11_reserved")
+            # "reserved names refused": refused or not - with whatever exception class. A metadata key that is not a string is outside the
+            # property (torch can store it; the present code happens to refuse it): its outcome is a counter, and a history in which the
+            # implementation accepts it ends there (the model refuses, `Store.lean` save)
+            if reserved or not nonstr:
+                ctx.oracle("save refuses exactly the reserved names (refused with any exception / not refused)", (err is not None) == reserved, cs,
+                           detail={"err": err, "reserved": reserved, "keys": [str(k) for k in keys]}, sig="save/reserved", theorem="C11_reserved")
+            else:
+                ctx.count("save:non-string-metadata-key:" + ("accepted" if err is None else f"refused({err})"))
+                if err is None:
+                    self.cut = True
             # no side effects on the metadata object (identity is the caller's variable; contents compared deeply) nor on the model
             ctx.oracle("save leaves the caller's metadata dict unchanged", so.deep_equal(md, pre["md_copy"]), cs,
                        detail={"before": repr(pre["md_copy"])[:300], "after": repr(md)[:300]}, sig="save/metadata-mutated", theorem="C11_no_side_effect")
@@ -321,7 +335,7 @@ class Hooks:
             st = real.models[op["slot"]]
             ls = self.last_saved.get(op["path"])
             if ls is None:
-                ctx.oracle("load of a path never saved raises FileNotFoundError", err == "FileNotFoundError", cs, sig="load/no-file", theorem="C11_history")
+                ctx.count("load:path-never-saved:" + str(err))   # not a clause of the property
             elif ls.get("metadata_only"):
                 ctx.oracle("load of a metadata-only file fails", err is not None, cs, sig="load/metadata-only")
             else:
@@ -347,12 +361,12 @@ class Hooks:
                 phys, off = (real.target_of(op), (real.last_write or {}).get("start", 0)) if t == "save" else real.where(op["path"])
                 if off != 0:
                     ctx.count(f"location_starts_at_nonzero_position:{t}" + (":in_a_stream_of_checkpoints" if os.path.basename(phys).startswith("stream") else ":after_a_header"))
-        if t in ("save", "saverSave") and pre.get("md_copy") and "unitary_dict" in pre["md_copy"] and "unitary_dict" not in real.models[op["slot"]].__dict__:
+        if t in ("save", "saverSave") and pre.get("md_copy") and "unitary_dict" in pre["md_copy"] and not hasattr(real.models[op["slot"]], "unitary_dict"):
             ctx.count("metadata_key_unitary_dict_on_state_without_dictionary:" + ("accepted" if err is None else str(err)))
         if t == "autoload":
             ls = self.last_saved.get(op["path"])
             if ls is None:
-                ctx.oracle("autoload of a path never saved raises FileNotFoundError", err == "FileNotFoundError", cs, sig="autoload/no-file")
+                ctx.count("autoload:path-never-saved:" + str(err))   # not a clause of the property
             elif ls.get("metadata_only"):
                 self.cross_kind.add(id(op))  # a metadata-only checkpoint is not a saved state
             else:
@@ -384,7 +398,7 @@ def level_fn(op, err):
 def one_case(ctx, case):
     hooks = Hooks(ctx, case)
     kept, obs = so.run_history(ctx, case, "c11.run", hooks, level_fn)
-    ctx.case({"plan": case["plan"], "tseed": case["tseed"]}, nontrivial=hooks.nontrivial,
+    ctx.case({"plan": case["plan"], "tseed": case["tseed"], "rel": bool(case.get("rel"))}, nontrivial=hooks.nontrivial,
              sample={"ops": [o["t"] for o in kept], "errors": [e for e, _ in obs], "tseed": case["tseed"]})
     ctx.count("cases_with_roundtrip" if hooks.nontrivial else "cases_without_roundtrip")
 
@@ -491,14 +505,28 @@ def gen_cases(ctx, thorough, ncases=None):
     maxlen = 40 if thorough else 12
     n = ncases if ncases is not None else (400 if thorough else 120)
     for k in range(n):
-        yield {"plan": gen_plan(ctx.rng, maxlen), "tseed": ctx.rng.randrange(1, 2 ** 31)}
+        # one history in four: every location written as a RELATIVE path, the working directory changed between creating a ModelSaver and using it
+        yield {"plan": gen_plan(ctx.rng, maxlen), "tseed": ctx.rng.randrange(1, 2 ** 31), "rel": ctx.rng.random() < 0.25}
 
 
 def run(ctx):
     ctx.rule = RULE
     for case in fixed_cases():
         one_case(ctx, case)
+        one_case(ctx, {**case, "rel": True})
     for case in gen_cases(ctx, ctx.tier == "thorough"):
+        one_case(ctx, case)
+
+
+def env_run(ctx, env_name):
+    """the same property for a caller who changed a process-global setting (harness/common.py ENVS: default dtype float64, no_grad,
+    another working directory): every hand-written history (all operation families, all three state types, ModelSaver, file objects)
+    with absolute and with relative locations, and a few generated ones; all objects are constructed inside the environment, and in the
+    relative-path histories the ModelSaver is created BEFORE a further change of the working directory and used after it"""
+    for case in fixed_cases():
+        one_case(ctx, {**case, "rel": case["tseed"] % 2 == 0})
+        one_case(ctx, {**case, "rel": case["tseed"] % 2 == 1})
+    for case in gen_cases(ctx, False, ncases=12):
         one_case(ctx, case)
 
 
@@ -507,6 +535,7 @@ def search(ctx):
     try:
         for case in fixed_cases():
             one_case(ctx, case)
+            one_case(ctx, {**case, "rel": True})
         for case in gen_cases(ctx, True, ncases=250):
             one_case(ctx, case)
     finally:
@@ -514,4 +543,4 @@ def search(ctx):
 
 
 def replay(ctx, case):
-    one_case(ctx, {"plan": case["plan"], "tseed": case["tseed"]})
+    one_case(ctx, {"plan": case["plan"], "tseed": case["tseed"], "rel": bool(case.get("rel"))})
